@@ -82,6 +82,20 @@ def sizes(tier, prop):
     return {"C03": 5000, "C04": 4000, "C05": 1200, "C16": 2500}[prop]
 
 
+BOOL_DOMAINS = ("bool-itv", "bool-sparse")          # flat_boolean_numerical_domain: reduction in both directions
+BOOL_FORWARDING = ("uf", "pow-itv", "pow-zones", "gen-zones", "ref-zones", "vpart")   # terms over booleans / forwarding wrappers
+
+
+def bool_sizes(tier, prop, dom):
+    """histories of the boolean sub-stream per domain"""
+    q = tier == "quick"
+    if dom["name"] in BOOL_DOMAINS:
+        return 450 if q else 12000
+    if dom["name"] in BOOL_FORWARDING:
+        return 60 if q else 1500
+    return 25 if q else 600
+
+
 def zlib_id(s):
     return zlib.crc32(s.encode()) % 1000
 
@@ -348,6 +362,17 @@ def run_domain(prop, tier, seed, dom, exe, n, known, shrink_ok, base_answers):
         ba = run_cases(exe, name, bl, os.path.join(outd, stream + "-box.cases"))
         examine(res, prop, dom, exe, stream, "box", bl, ba, orc, known, shrink_ok)
         st["box_cases"] = len(bl)
+    if prop in ("C03", "C04"):
+        # boolean operations (never generated by the streams above): reified constraints,
+        # their invalidation, boolean combinations, assume_bool, lattice operations and inclusion
+        # on values that remember constraints.  Most cases go to the domains that implement
+        # booleans; for the others the boolean operations are no-ops that must not leave stale facts.
+        nbool = bool_sizes(tier, prop, dom)
+        bl = [X.ascending_widen(l) if dom.get("asc_widen") else l for l in X.BOOL_CORPUS]
+        bl += X.bool_histories(seed + 77 + zlib_id(prop), nbool, prop, asc_widen=dom.get("asc_widen", False))
+        ba = run_cases(exe, name, bl, os.path.join(outd, stream + "-bool.cases"))
+        examine(res, prop, dom, exe, stream, "bool", bl, ba, lambda l, a: X.bool_oracle(l, a, checks), known, shrink_ok)
+        st["bool_cases"] = len(bl)
     if prop == "C03" and dom["rel"]:
         # decomposition of general linear constraints against established bounds, with a
         # dense sample of the solutions (domall_extra.lin_samples)
